@@ -179,8 +179,10 @@ func (r *Runner[T]) boot(ctx context.Context) error {
 		return nil
 	}
 
-	// Grow the error channel so every child can report without dropping
-	if len(cfg.Entries) > cap(r.serverErrors) {
+	// Grow the error channel so every child can report without dropping. Only the
+	// initial boot may replace it: once Run() selects on the channel, a reload that
+	// swapped it would make failures of the newly started children go unseen.
+	if len(cfg.Entries) > cap(r.serverErrors) && r.fsm.GetState() == finitestate.StatusBooting {
 		r.serverErrors = make(chan error, len(cfg.Entries))
 	}
 
